@@ -14,7 +14,7 @@
 (*   ProcIncs         Config._process_includes    (core.py: the include    *)
 (*                    fields of a scope in declaration order, each result  *)
 (*                    feeding the next, then the nested schemas whose      *)
-(*                    value in the tree is truthy)                         *)
+(*                    value in the tree is a map)                          *)
 (*   LoadTreeOp       Config.load_tree / _set_value for the field kinds    *)
 (*                    the instances use (plain Field, IntField,            *)
 (*                    IncludeField, nested Schema); not atomic             *)
@@ -196,7 +196,7 @@ SubLoop(subs, tree, fs, scope, used) ==
     IF subs = <<>> THEN ProcRes(TRUE, tree, "", used)
     ELSE LET key == Head(subs)[1]
              v   == TGet(tree, K(key))
-         IN  IF ~Truthy(v) THEN SubLoop(Tail(subs), tree, fs, scope, used)     \* if tree.get(key):
+         IN  IF ~IsMap(v) THEN SubLoop(Tail(subs), tree, fs, scope, used)  \* if isinstance(tree.get(key), dict):
              ELSE LET r == ProcIncs(Head(subs)[2], v, fs, Append(scope, key)) IN
                   IF ~r.ok THEN ProcRes(FALSE, tree, r.why, used \o r.used)
                   ELSE SubLoop(Tail(subs), DictV(DictSet(tree.kv, K(key), r.tree)), fs, scope,
@@ -281,7 +281,8 @@ SameCfg(a, b) ==
 ---------------------------------------------------------------------------
 (* The single merged tree a document with includes stands for - declaratively: in every
    scope the named files are deep-merged (LawMerge) into the scope's map, in the order the
-   include fields are declared; then the same in each nested scope.  A name is resolved
+   include fields are declared; then the same in each nested scope that holds a map (any
+   other value there is left for load_tree to reject).  A name is resolved
    against the field's start directory (the working directory without one) unless it is
    absolute, and must be an existing regular file holding a map.  Undefined (ok = FALSE)
    when some name that is reached does not: then the load must fail. *)
@@ -308,7 +309,7 @@ Decl(S, tree, fs) ==
          IF ~m.ok THEN Bad
          ELSE LET kv == m.tree.kv
                   sub(i) == LET k == kv[i][1]  v == kv[i][2] IN
-                            IF IsStr(k) /\ HasField(S, k.s) /\ FieldOf(S, k.s).kind = "schema" /\ Truthy(v)
+                            IF IsStr(k) /\ HasField(S, k.s) /\ FieldOf(S, k.s).kind = "schema" /\ IsMap(v)
                             THEN Decl(FieldOf(S, k.s), v, fs) ELSE Good(v)
               IN  IF \E i \in DOMAIN kv : ~sub(i).ok THEN Bad
                   ELSE Good(DictV([i \in DOMAIN kv |-> <<kv[i][1], sub(i).tree>>]))
